@@ -656,19 +656,27 @@ class cst(exp):
 
     @_checkarg_numeric
     def __rshift__(self, n):
-        self.sf = False  # rshift implements logical right shift
+        # rshift implements logical right shift (of the unsigned value)
         if n._is_cst:
-            return cst(self.value >> n.v, self.size)
+            return cst(self.v >> n.v, self.size)
         else:
-            return exp.__rshift__(self, n)
+            x = self
+            if x.sf:
+                x = copy(self)
+                x.sf = False
+            return exp.__rshift__(x, n)
 
     @_checkarg_numeric
     def __floordiv__(self, n):
-        self.sf = True  # floordiv implements arithmetic right shift
+        # floordiv implements arithmetic right shift (of the signed value)
+        x = self
+        if not x.sf:
+            x = copy(self)
+            x.sf = True
         if n._is_cst:
-            return cst(self.value >> n.v, self.size)
+            return cst(x.value >> n.v, self.size)
         else:
-            return exp.__floordiv__(self, n)
+            return exp.__floordiv__(x, n)
 
     @_checkarg_numeric
     def __radd__(self, n):
@@ -1991,7 +1999,14 @@ class _operator(object):
             assert self.unary
             return self.impl(l)
         if self.unsigned:
-            l.sf = r.sf = False
+            # operands are considered unsigned, but they may be shared with
+            # other expressions so their sign flag is not modified in place:
+            if l.sf:
+                l = copy(l)
+                l.sf = False
+            if r.sf:
+                r = copy(r)
+                r.sf = False
         return self.impl(l, r)
 
     def __mul__(self, op):
